@@ -36,6 +36,8 @@ class Recorder:
     def __init__(self):
         self.merges = []      # (kind, almsA, almsB, flagsA, flagsB, out)
         self.iters = []       # (gw, before, sops..., after)
+        self.splits = []      # one refinement split: matrix before, idxA, flags, matrix after _join
+        self.cur_split = None
         self.last_profile = None
 
     def __enter__(self):
@@ -68,6 +70,25 @@ class Recorder:
                     rec.merges.append((_name, inA, inB, [x != '-' for x in fa], [x != '-' for x in fb], res))
                 return out
             setattr(mult.Multiple, name, wrapped_merge)
+        orig_split = mult.Multiple._split
+        orig_join = mult.Multiple._join
+        self.orig[(mult.Multiple, '_split')] = orig_split
+        self.orig[(mult.Multiple, '_join')] = orig_join
+
+        def wrapped_split(self_, idx):
+            rec.cur_split = dict(before=[list(r) for r in self_._alm_matrix], idxA=list(idx), n_merges=len(rec.merges))
+            return orig_split(self_, idx)
+
+        def wrapped_join(self_, almA, almB, idxA, idxB):
+            out = orig_join(self_, almA, almB, idxA, idxB)
+            cs = rec.cur_split
+            if cs is not None and len(rec.merges) == cs['n_merges'] + 1:
+                m = rec.merges[-1]
+                rec.splits.append(dict(before=cs['before'], idxA=cs['idxA'], fa=m[3], fb=m[4], after=[list(r) for r in out]))
+            rec.cur_split = None
+            return out
+        mult.Multiple._split = wrapped_split
+        mult.Multiple._join = wrapped_join
         orig_iter = mult.Multiple._iter
         self.orig[(mult.Multiple, '_iter')] = orig_iter
 
@@ -143,6 +164,8 @@ def run_multiple(chk, want):
     rng = chk.rng
     drv = common.Driver()
     bad_merge, bad_iter, fails = [], [], []
+    bad_prog, bad_split = [], []
+    nprog = nsplit = 0
     n = chk.n(500, 6000)
     nmerge = 0
     npass = 0
@@ -159,6 +182,8 @@ def run_multiple(chk, want):
             try:
                 msa = mult.Multiple(seqs)
                 (msa.prog_align if method == 'progressive' else msa.lib_align)(**kw)
+                after_prog = dict(numbers=[list(r) for r in msa._numbers], tm=[(int(r[0]), int(r[1])) for r in msa.tree_matrix],
+                                  merges=list(rec.merges), matrix=[list(r) for r in msa._alm_matrix])
                 toks = [ipa2tokens(s) for s in seqs]
                 # row content / shape is C04's statement; C11 only speaks about the compared score
                 e = oracle_msa(msa, toks) if want == 'C04' else None
@@ -201,6 +226,28 @@ def run_multiple(chk, want):
                 nmerge += 1
                 if o != 'M ' + rows_line(r):
                     bad_merge.append((inA, inB, fa, fb, res, o))
+        if want == 'C04':
+            # the whole pass along the guide tree: input sequences + tree matrix + the index rows the real profile aligner
+            # returned at every node  ->  Lean `progressive`  ==  the real _alm_matrix
+            ap = after_prog
+            if len(ap['merges']) >= len(ap['tm']) and ap['tm']:
+                ms = ap['merges'][-len(ap['tm']):]
+                coded, code = sym_code(ap['numbers'] + ap['matrix'])
+                nums, real = coded[:len(ap['numbers'])], coded[len(ap['numbers']):]
+                steps = ' '.join('%d,%d:%s:%s' % (m, n_, ''.join('1' if x else '0' for x in mg[3]), ''.join('1' if x else '0' for x in mg[4]))
+                                 for (m, n_), mg in zip(ap['tm'], ms))
+                o = drv.ask('prog|0|%s|%s' % (rows_line(nums), steps))
+                nprog += 1
+                if o != 'M ' + rows_line(real):
+                    bad_prog.append((seqs, method, kw, o, rows_line(real)))
+            for sp in rec.splits[:8]:
+                coded, code = sym_code(sp['before'] + sp['after'])
+                b, a = coded[:len(sp['before'])], coded[len(sp['before']):]
+                o = drv.ask('refine|0|%s|%s|%s|%s' % (rows_line(b), ' '.join(map(str, sp['idxA'])), ' '.join('1' if x else '0' for x in sp['fa']),
+                                                       ' '.join('1' if x else '0' for x in sp['fb'])))
+                nsplit += 1
+                if o != 'M ' + rows_line(a):
+                    bad_split.append((seqs, sp, o))
         for itr in rec.iters:
             if itr['check'] != 'final' or itr['n_idx'] == 1 or not itr['seen']:
                 continue
@@ -215,6 +262,11 @@ def run_multiple(chk, want):
     if want == 'C04':
         chk.obligation('correspondence:profile merge steps == Lean mergeBlocks (observed blocks + observed profile alignment)', 'correspondence',
                        not bad_merge, 'merge steps=%d mismatches=%d' % (nmerge, len(bad_merge)))
+    if want == 'C04':
+        chk.obligation('correspondence:_merge_alignments (guide-tree pass + reordering) == Lean progressive on the observed tree matrix and profile alignments, hypotheses of C04_progressive (progOkb) hold on them',
+                       'correspondence', not bad_prog, 'alignments=%d mismatches=%d' % (nprog, len(bad_prog)))
+        chk.obligation('correspondence:refinement split (_split, _align_profile, _join) == Lean refineSplit, hypotheses of C04_refineSplit (rectb, splitOkb) hold on the observed data', 'correspondence', not bad_split,
+                       'splits=%d mismatches=%d' % (nsplit, len(bad_split)))
     chk.obligation('correspondence:end-of-pass decision of _iter == Lean iterFinal (same gap weight on both sides, exact restore)', 'correspondence',
                    not bad_iter, 'passes=%d mismatches=%d %s' % (npass, len(bad_iter), str(bad_iter[0])[:200] if bad_iter else ''))
     chk.obligation('oracle:%s statement on Multiple objects' % want, 'correspondence', not fails, 'alignments=%d failures=%d' % (n, len(fails)))
@@ -222,9 +274,9 @@ def run_multiple(chk, want):
     for f in fails[:2]:
         chk.violation('Multiple(%r).%s(%r) then %r: %s' % (f[0], f[1], f[2], f[3], f[4]),
                       {'kind': 'multiple', 'seqs': f[0], 'method': f[1], 'kw': f[2], 'calls': f[3], 'why': f[4]})
-    if (bad_merge or bad_iter) and not fails:
+    if (bad_merge or bad_iter or bad_prog or bad_split) and not fails:
         chk.violation('merge / end-of-pass step differs from the model; oracle found no failing input',
-                      {'kind': 'multiple-model', 'detail': str((bad_merge or bad_iter)[0])[:2000], 'broken': 'correspondence'}, found_input=False)
+                      {'kind': 'multiple-model', 'detail': str((bad_merge or bad_iter or bad_prog or bad_split)[0])[:2000], 'broken': 'correspondence'}, found_input=False)
     chk.sample({'seqs': seqs, 'alm_matrix': [' '.join(r) for r in msa.alm_matrix]}, limit=2)
 
 
